@@ -138,6 +138,11 @@ pub fn get(prop: &str, tier: &str) -> Option<Check> {
             rule_text: "each run: a filter from {Any, Exact, AnyOf(1-4), wildcard over the octet lattice {0,1,10,127,128,192,254,255,*}} and 1-6 peers with source addresses from the same lattice +-1 octet, IPv6 loopback/ULA and v4-mapped v6; a non-matching peer must receive zero bytes, see EOF and reach no handler, a matching peer must be served; 4 wildcard strings per run from the grammar of well- and ill-formed forms against the parser. Distinct = hash of filter and peer addresses.",
             batches: vec![
                 Batch { name: "filter_tcp_rust_api", f: scen::sessions::run_filter_tcp, cfg: cfg(Mode::LockStep, false, 0), runs: n(100_000, 3_000_000), real: REAL_SERVER_TCP, stub: STUB_SERVER_TCP },
+                Batch { name: "filter_ffi_tcp", f: scen::ffi::run_server, cfg: cfg(Mode::LockStep, false, 0), runs: n(30_000, 1_000_000), real: REAL_FFI, stub: STUB_FFI },
+                Batch { name: "filter_ffi_tls", f: scen::ffi::run_server, cfg: cfg(Mode::LockStep, false, 1), runs: n(4_000, 150_000), real: REAL_FFI, stub: STUB_FFI },
+                Batch { name: "filter_ffi_tls_authz", f: scen::ffi::run_server, cfg: cfg(Mode::LockStep, false, 2), runs: n(4_000, 150_000), real: REAL_FFI, stub: STUB_FFI },
+                Batch { name: "filter_tls_rust_api", f: scen::tls::run_filter_tls, cfg: cfg(Mode::Racy, false, 0), runs: n(2_000, 80_000), real: REAL_TLS, stub: STUB_TLS },
+                Batch { name: "filter_tls_authz_rust_api", f: scen::tls::run_filter_tls, cfg: cfg(Mode::Racy, false, 1), runs: n(2_000, 80_000), real: REAL_TLS, stub: STUB_TLS },
             ],
             assumptions: vec!["'+1' / '007' spellings of an octet are outside the generated domain (the statement does not say whether they are numbers 0-255)"],
         },
@@ -175,11 +180,20 @@ pub fn get(prop: &str, tier: &str) -> Option<Check> {
             ],
             assumptions: vec!["role strings are those of the committed fixture certificates (no hook is used to inject arbitrary roles)", "the authorization policy is a pure function implemented by the harness"],
         },
+        "C19" => Check {
+            prop: "C19",
+            rule_text: "map semantics: each run creates a C-ABI server with 1-2 units whose configure callbacks, update_database transactions and write callbacks perform random add/update/delete/get over the four point types and indices {0,1,2,3,65535} through the extern \"C\" database functions; every return value must equal model::db (one map per type: add only if absent, update/delete only if present, get fails with InvalidIndex if absent) and every client read over the simulated network must return the model's values, or exception 02 if any addressed point is absent. Distinct = hash of op sequences.",
+            batches: vec![
+                Batch { name: "ffi_server_tcp", f: scen::ffi::run_server, cfg: cfg(Mode::LockStep, false, 0), runs: n(60_000, 2_000_000), real: REAL_FFI, stub: STUB_FFI },
+            ],
+            assumptions: vec!["atomicity under real thread pre-emption is decided by the shuttle engine batch (see DESIGN.md); in the single-threaded simulation a transaction runs to completion under the handler mutex"],
+        },
         "C18" => Check {
             prop: "C18",
             rule_text: "ffi client",
             batches: vec![
                 Batch { name: "ffi_client", f: scen::ffi::run_client, cfg: cfg(Mode::LockStep, false, 0), runs: n(40_000, 1_500_000), real: REAL_FFI, stub: STUB_FFI },
+                Batch { name: "ffi_server_tcp", f: scen::ffi::run_server, cfg: cfg(Mode::LockStep, false, 0), runs: n(40_000, 1_500_000), real: REAL_FFI, stub: STUB_FFI },
             ],
             assumptions: vec!["only valid enumerator values cross the boundary (the generated From<c_int> impls panic on others by oo-bindgen's design)", "Java/.NET/C++ layers above the C ABI are out of scope"],
         },
